@@ -5,6 +5,8 @@
         confirms in a scratch worktree (outside /repo and /verif) that the patch applies to /repo's HEAD, that demo.py passes
         without and fails with it, and that the pinned baseline still passes with it; then stores /verif/seeded/<seed_id>/
         {patch.diff, demo.py, notes.txt, meta.json}. Nothing is ever committed to /repo.
+  seed.py prun <seed_id> [tier]
+        the same for one seed in a private patched worktree (VF_REPO), so /repo is untouched and several can run side by side.
   seed.py run [seed_id ...] [--tier quick] [--props C01,C03]
         applies each stored patch to /repo's working tree, runs the listed checks (default: the property it breaks),
         reverts with `git checkout -- .`, prints DETECTED/MISSED and updates meta.json["detected_by"].
@@ -25,6 +27,7 @@ def sh(cmd, **kw):
 
 
 def verify(deliver, seed_id, prop, needs):
+    WT = "/tmp/wt/_verify_" + seed_id      # private per seed, so several verifications can run side by side
     patch = os.path.join(deliver, "patch.diff")
     demo = os.path.join(deliver, "demo.py")
     assert os.path.exists(patch) and os.path.exists(demo), "patch.diff / demo.py missing"
@@ -102,8 +105,40 @@ def run(ids, tier, props):
     return 0
 
 
+def prun(sid, tier):
+    """Like run for one seed, but in a private patched worktree (VF_REPO), so /repo is never touched and seeds can run in parallel."""
+    d = os.path.join(SEEDED, sid)
+    mp = os.path.join(d, "meta.json")
+    meta = json.load(open(mp))
+    p = meta["breaks_property"]
+    wt, out = "/tmp/wt/s_" + sid, "/tmp/vf_seed_out/" + sid
+    sh(["git", "-C", "/repo", "worktree", "remove", "--force", wt])
+    r = sh(["git", "-C", "/repo", "worktree", "add", "--detach", wt, "HEAD"])
+    assert r.returncode == 0, r.stderr
+    try:
+        r = sh(["git", "-C", wt, "apply", os.path.join(d, "patch.diff")])
+        if r.returncode != 0:
+            print(f"{sid:28s} PATCH-FAIL {r.stderr.strip()[:100]}")
+            return 2
+        os.makedirs(out, exist_ok=True)
+        t = time.time()
+        rr = sh(["/venv/bin/python", "-m", "vf", p, "--tier", tier], cwd="/verif", env=dict(os.environ, VF_REPO=wt, VF_OUT=out))
+        open(os.path.join(out, "log"), "w").write(rr.stdout + rr.stderr)
+        viol = [l for l in rr.stdout.splitlines() if l.startswith("VIOLATION")]
+        keys = [l.strip()[4:] for l in rr.stdout.splitlines() if l.strip().startswith("key=")]
+        st = "DETECTED" if rr.returncode == 1 and viol else f"MISSED(rc={rr.returncode})"
+        print(f"{sid:28s} {p} {tier:8s} {st:14s} {time.time() - t:4.0f}s {keys[:2]}", flush=True)
+        meta.setdefault("detected_by", {})[f"{p}:{tier}"] = {"status": st, "keys": keys[:4]}
+        json.dump(meta, open(mp, "w"), indent=1)
+    finally:
+        sh(["git", "-C", "/repo", "worktree", "remove", "--force", wt])
+    return 0
+
+
 if __name__ == "__main__":
     a = sys.argv[1:]
+    if a and a[0] == "prun":
+        sys.exit(prun(a[1], a[2] if len(a) > 2 else "quick"))
     if a and a[0] == "verify":
         needs = ""
         if "--needs" in a:
